@@ -163,7 +163,9 @@ func runC06(c *core.Ctx) {
 					if want == nil {
 						// no payload in the specification: "unknown" (the library's answer) and "known, 0 bytes, no
 						// payload" say the same thing; a payload of some size does not
-						if err == nil && (size != 0 || pl != nil) {
+						if xs, extra := spec.ExtraSizes[up][byte(cid)]; extra && err == nil && size == xs {
+							c.Count("registry.entries-beyond-the-specification-table", 1)
+						} else if err == nil && (size != 0 || pl != nil) {
 							c.Violate(fmt.Sprintf("C06|registry|unexpected|up=%v|cid=%#x", up, cid), "%s: (uplink=%v, CID %#x) has a registered payload of %d bytes; the specification defines none", when, up, cid, size)
 						}
 					} else if err != nil || size != want.Size || reflect.TypeOf(pl) != reflect.TypeOf(macCtor[up][byte(cid)]()) {
